@@ -19,6 +19,7 @@ import (
 	"sync"
 	"time"
 
+	libaudit "github.com/elastic/go-libaudit/v2"
 	"github.com/elastic/go-libaudit/v2/auparse"
 
 	"verifharness/internal/common"
@@ -817,6 +818,56 @@ func corruptC04(rng *rand.Rand, c ACase) ACase {
 	return out
 }
 
+// pushStream collects what a Reassembler delivers.
+type pushStream struct{ msgs []*auparse.AuditMessage }
+
+func (s *pushStream) ReassemblyComplete(msgs []*auparse.AuditMessage) {
+	s.msgs = append(s.msgs, msgs...)
+}
+func (s *pushStream) EventsLost(int) {}
+
+// c04PushEntry: the third way into the header parser. Reassembler.Push(type, bytes) parses the record itself and, as
+// documented, copies what it needs: the caller's buffer is the caller's again when Push returns (a receive loop reads
+// the next datagram into it). The record is pushed, the buffer overwritten, the Reassembler closed; the message that
+// comes out must carry the header that was written.
+func c04PushEntry(c ACase) string {
+	h := c.Hdr
+	if h == nil || c.Bad || h.Typ == 1320 {
+		return ""
+	}
+	line := c.input()
+	buf := []byte(line[strings.Index(line, "msg=")+4:])
+	raw := strings.TrimSpace(string(buf))
+	st := &pushStream{}
+	r, err := libaudit.NewReassembler(5, time.Hour, st)
+	if err != nil {
+		return ""
+	}
+	if err := r.Push(auparse.AuditMessageType(h.Typ), buf); err != nil {
+		r.Close()
+		return "C04: Reassembler.Push rejects a well-formed record: " + err.Error()
+	}
+	for i := range buf {
+		buf[i] = 'X'
+	}
+	r.Close()
+	if len(st.msgs) != 1 {
+		return fmt.Sprintf("C04: Reassembler.Push of one record followed by Close delivered %d messages", len(st.msgs))
+	}
+	m := st.msgs[0]
+	want := time.Unix(h.Sec, int64(h.Ms)*int64(time.Millisecond)).UTC()
+	if int(m.RecordType) != h.Typ || !m.Timestamp.Equal(want) || m.Sequence != h.Seq {
+		return fmt.Sprintf("C04: the message delivered for a record given to Reassembler.Push has type %d, time %v, sequence %d; written: %d, %d.%03d, %d", m.RecordType, m.Timestamp, m.Sequence, h.Typ, h.Sec, h.Ms, h.Seq)
+	}
+	if m.RawData != raw {
+		return fmt.Sprintf("C04: the message delivered for a record given to Reassembler.Push has RawData %q after the caller reused its buffer; pushed: %q", m.RawData, raw)
+	}
+	if ms := m.ToMapStr(); ms["raw_msg"] != raw || ms["sequence"] != strconv.FormatUint(uint64(h.Seq), 10) {
+		return fmt.Sprintf("C04: ToMapStr of the message delivered for a record given to Reassembler.Push reports raw_msg=%q sequence=%v after the caller reused its buffer", ms["raw_msg"], ms["sequence"])
+	}
+	return ""
+}
+
 func c04Monitor(c ACase, o aObs) string {
 	if c.Bad {
 		if o.Err == nil {
@@ -1000,7 +1051,7 @@ func auparseFamily(ctx *Ctx) error {
 		}
 		o := runAImpl(rp.Input)
 		rep, _ := m.Ask1(aModelLine(rp.Input))
-		fmt.Printf("input: %q\nimpl : %s\nmodel: %s\npanic: %s\nC04: %s\nC12: %s\n", rp.Input.input(), o.Out, rep, o.Panic, c04Monitor(rp.Input, o), c12Monitor(rp.Input, o))
+		fmt.Printf("input: %q\nimpl : %s\nmodel: %s\npanic: %s\nC04: %s\nC04 through Reassembler.Push: %s\nC12: %s\n", rp.Input.input(), o.Out, rep, o.Panic, c04Monitor(rp.Input, o), c04PushEntry(rp.Input), c12Monitor(rp.Input, o))
 		return nil
 	}
 
@@ -1160,6 +1211,12 @@ func auparseFamily(ctx *Ctx) error {
 		}
 		if cl := c04Monitor(c, o); cl != "" {
 			res.Violate(common.Violation{Kind: "monitor", Clause: cl, Input: c, Impl: o.Out, Case: idx})
+		}
+		if ctx.Prop == "C04" && idx%4 == 0 {
+			if cl := c04PushEntry(c); cl != "" {
+				res.Violate(common.Violation{Kind: "monitor", Clause: cl, Input: c, Impl: o.Out, Case: idx})
+			}
+			res.Hist("through Reassembler.Push")
 		}
 		if cl := c12Monitor(c, o); cl != "" {
 			res.Violate(common.Violation{Kind: "monitor", Clause: cl, Input: c, Impl: o.Out, Case: idx})
